@@ -156,9 +156,15 @@ def run_into(res, prop, tier, scratch, binary):
         transitions += tr2
         total += nsel["behaviours"]
         desc.append(nsel.pop("exhaustive"))
+        oc = out_channel(res, tier, scratch, binary)
+        states += oc["states"]
+        transitions += oc["transitions"]
+        total += oc["scenarios_that_reached_verification"]
+        desc.append(oc.pop("exhaustive"))
     cov = res.coverage
     if nsel:
         cov["node_selection"] = nsel
+        cov["peer_that_never_reads"] = oc
     cov["states"] = cov.get("states", 0) + states
     cov["transitions"] = cov.get("transitions", 0) + transitions
     cov["traces_validated_against_impl"] = cov.get("traces_validated_against_impl", 0) + total
@@ -222,11 +228,60 @@ def node_selection(res, tier, scratch, binary, sd):
     return stt, states, transitions
 
 
+def out_channel(res, tier, scratch, binary):
+    """C13, "a verify-only connection disconnects as soon as verification succeeds" - also from a peer that does not
+    read: OutChannel.tla (outgoing queue, its mutex, sender goroutine, Stop) proves that a Stop completes whatever
+    the peer does with the closing order of the code, and yields, for the other order, the schedule (queue full, an
+    adder waiting with the mutex, Stop) that the harness plays against the real node."""
+    quick = tier == "quick"
+    consts = {"Cap": 2 if quick else 3, "Adders": {q("read"), q("handshake")} | (set() if quick else {q("ping")}),
+              "MaxAdds": 3, "Order": q("conn")}
+    out, st = run_tlc(scratch, "OutChannel", cfg(consts, spec="Spec", invariants=["TypeOK", "MutexHeld"],
+                                                 properties=["StopCompletes", "NobodyLeftBlocked"]),
+                      workers=NCPU, timeout=2400, name="outchan")
+    tlc_ok(out, st, "OutChannel (order of the code)")
+    # sensitivity of the specification: with the reverse closing order TLC must find the blocked Stop
+    out2, st2 = run_tlc(scratch, "OutChannel", cfg(dict(consts, Cap=2, Adders={q("read"), q("handshake")}, Order=q("chan")), spec="Spec",
+                                                   properties=["StopCompletes"]), workers=NCPU, timeout=1200, name="outchan_rev")
+    if "StopCompletes" not in out2 or "violated" not in out2:
+        raise Infra("OutChannel: the reverse closing order is not rejected by TLC - the specification lost its teeth\n" + out2[-1500:])
+    rc, o, err = run_harness(binary, ["deafpeer"], timeout=900)
+    if rc != 0 or not o.strip():
+        raise Infra("deafpeer harness failed: " + err[-2000:])
+    sc = json.loads(o)["scenarios"]
+    reached = [x for x in sc if x["verified"]]
+    if len(reached) < 4:
+        raise Infra("deafpeer: only %d scenarios reached verification: %s" % (len(reached), sc))
+    for x in sc:
+        if x.get("msg", "").startswith("harness:"):
+            raise Infra("deafpeer: " + x["msg"])
+        if x.get("msg") and x.get("prop") == "C13":
+            res.violation(x["msg"], {"engine": "deafpeer", "scenario": x})
+    res.assumptions.append("peer that never reads: the outgoing queue is filled to within a few messages of its capacity "
+                           "(995..1000 queued answers) from outside; which of the handshake's messages finds it full is "
+                           "not observed, so every count in that window is played")
+    return {"exhaustive": "OutChannel cap=%d adders=%d: %d distinct / %d generated; reverse closing order rejected by TLC" % (
+                consts["Cap"], len(consts["Adders"]), st["distinct"], st["generated"]),
+            "states": st["distinct"], "transitions": st["generated"], "scenarios": len(sc),
+            "scenarios_that_reached_verification": len(reached),
+            "scenarios_where_the_queue_filled_before_the_handshake": len([x for x in sc if not x["handshake_complete"]])}
+
+
 def replay(prop, path):
     with open(path) as fh:
         rp = json.load(fh)["replay"]
     with Scratch(prop + "r") as scratch:
         binary = build_harness(scratch)
+        if rp.get("engine") == "deafpeer":
+            rc, o, err = run_harness(binary, ["deafpeer"], timeout=900)
+            bad = [x for x in json.loads(o)["scenarios"] if x.get("prop") == prop]
+            for x in bad:
+                print(x["msg"])
+            if bad:
+                print("VIOLATION property=%s replay=%s" % (prop, path))
+                return 1
+            print("not reproduced")
+            return 0
         p = os.path.join(scratch, "b.jsonl")
         with open(p, "w") as fh:
             fh.write(json.dumps(rp["behaviour"]) + "\n")
